@@ -9,7 +9,7 @@
    on the names of locals, the order of the loop's state tuple, the polarity of a condition or on helper functions. *)
 From Coq Require Import List ZArith Lia Bool Arith ZifyBool.
 From V Require Import Lib.Enc Gen.Cryptz Model.Aes Model.Crypt Lib.GoSem Lib.GoSemRec Lib.GoSemStd Proofs.GoSemFacts
-  Gen.CryptCode Run.C09Code.
+  Gen.CryptCode Run.C09Code Proofs.CryptKdf.
 Import ListNotations.
 Local Open Scope Z_scope.
 Arguments Z.mul : simpl never.
@@ -355,5 +355,112 @@ Proof.
     assert (LD : (16 <= length DST)%nat) by (unfold DST; rewrite !length_put; rewrite ?length_put, ?repeat_length; lia) end.
   destruct (Nat.ltb_spec (length DST) 16); [lia|].
   match goal with |- context [buf_res _ ?r] => destruct r end; cbn [buf_res GoSem.bind bytes_res9]; cbv beta iota; rewrite ?firstn_skipn; reflexivity.
+Qed.
+
+(* ---- the decryptors: both sides are evaluated together *)
+Lemma slice_from_nat (l : bytes) a : (a <= length l)%nat -> Crypt.slice l a (length l) = Some (skipn a l).
+Proof. intros H. rewrite slice_ok by lia. rewrite firstn_all2; [reflexivity|]. rewrite skipn_length. lia. Qed.
+Lemma m_slice_nat0 (l : list Z) b : m_slice l 0 (Z.of_nat b) = lift (Crypt.slice l 0 b).
+Proof.
+  unfold m_slice, GoSem.slice, Crypt.slice. cbn [Z.leb Z.compare Nat.leb andb].
+  destruct (Z.leb_spec 0 (Z.of_nat b)); [|lia]. cbn [andb].
+  destruct (Z.leb_spec (Z.of_nat b) (Z.of_nat (length l))), (Nat.leb_spec b (length l)); try lia; [|reflexivity].
+  rewrite Nat2Z.id. reflexivity.
+Qed.
+Lemma m_slice_neg (l : list Z) b : b < 0 -> m_slice l 0 b = GoSem.Panic.
+Proof. intros H. unfold m_slice, GoSem.slice. cbn [Z.leb Z.compare andb]. destruct (Z.leb_spec 0 b); [lia|reflexivity]. Qed.
+Lemma to_nat_zlen (l : list Z) : Z.to_nat (zlen l) = length l.
+Proof. unfold zlen. apply Nat2Z.id. Qed.
+Ltac err_nz H := repeat match type of H with
+  | context [if ?c then _ else _] => destruct c
+  | context [match ?x with Some _ => _ | None => _ end] => destruct x
+  end; try discriminate; try (injection H as <-; discriminate).
+Lemma unpad_err_nz d e : unpad_tbl d = Err e -> e <> 0.
+Proof. unfold unpad_tbl. intros H. err_nz H. Qed.
+Lemma cbc_decrypt_err_nz dst ct k iv e : cbc_decrypt D dst ct k iv = Err e -> e <> 0.
+Proof.
+  unfold cbc_decrypt. cbv zeta. intros H. err_nz H.
+  destruct (unpad_tbl _) eqn:Hu in H; try discriminate. injection H as <-. apply unpad_err_nz in Hu. exact Hu.
+Qed.
+Lemma gcm_decrypt_err_nz dst ct k n ad e : gcm_decrypt open dst ct k n ad = Err e -> e <> 0.
+Proof. unfold gcm_decrypt. intros H. err_nz H. Qed.
+Ltac lensn := unfold zlen in *; lia.
+Ltac dec_if3 := match goal with |- context [if ?c then _ else _] =>
+  match c with context [if _ then _ else _] => fail 1 | _ => idtac end;
+  first [ replace c with false by (symmetry; lens) | replace c with true by (symmetry; lens)
+        | replace c with false by (symmetry; lensn) | replace c with true by (symmetry; lensn)
+        | match c with context [?v] => is_var v; match type of v with bool => destruct v end end
+        | let Hc := fresh "Hc" in destruct c eqn:Hc ] end.
+Ltac not_if r := lazymatch r with context [if _ then _ else _] => fail | _ => idtac end.
+Ltac dres r := lazymatch type of r with res (_ * _) => destruct r as [[? ?]| |] eqn:? | _ => destruct r eqn:? end.
+Ltac ev3n := first
+ [ match goal with
+   | HF : fill_cred md5 _ _ = Err _ |- _ => exfalso; exact (fill_loop_no_err _ _ _ _ _ _ _ HF)
+   | HF : cbc_decrypt D _ _ _ _ = Err ?e |- _ =>
+       lazymatch goal with H : e <> 0 |- _ => fail | _ => idtac end; pose proof (cbc_decrypt_err_nz _ _ _ _ _ HF)
+   | HF : gcm_decrypt open _ _ _ _ _ = Err ?e |- _ =>
+       lazymatch goal with H : e <> 0 |- _ => fail | _ => idtac end; pose proof (gcm_decrypt_err_nz _ _ _ _ _ _ HF)
+   | HF : fill_cred md5 _ _ = Ok ?c |- _ =>
+       lazymatch goal with H : zlen c = 48 |- _ => fail | _ => idtac end;
+       assert (zlen c = 48) by (apply fill_loop_len in HF; unfold zlen; rewrite HF; reflexivity)
+   end
+ | match goal with |- context [Ret (md5 ?x)] => let p := fresh "p" in let Hp := fresh "Hp" in
+     set (p := md5 x); assert (Hp : zlen p = 16) by apply md5_zlen end
+ | progress cbn [GoSem.bind negb Crypt.bind of_opt plain_of bytes_res9 cred_res buf_res lift]
+ | progress cbv beta iota zeta
+ | progress fold_consts
+ | progress fold_nat
+ | progress unfold E_SALT, E_CTLEN2, E_HDR_CBC, E_HDR
+ | match goal with |- context [fill_loop md5 3 0 (zeros 16) ?a ?b (repeat 0 48)] =>
+     change (fill_loop md5 3 0 (zeros 16) a b (repeat 0 48)) with (fill_cred md5 a b) end
+ | progress unfold zeros
+ | progress change header with v_fixedSaltHeader
+ | progress change BS with 16%nat
+ | progress change TAG with 16%nat
+ | match goal with |- context [skipn 0 ?l] => change (skipn 0 l) with l end
+ | progress autounfold with go2v_aux
+ | rewrite to_nat_zlen
+ | rewrite m_make_ok by first [lens | apply zlen_nonneg]
+ | rewrite m_slice_all
+ | rewrite m_slice_from by lens
+ | rewrite m_slice_pre by first [lens | lensn]
+ | rewrite m_slice_neg by first [lens | lensn]
+ | rewrite m_slice_nat0
+ | rewrite m_slice_gen by lens
+ | rewrite splice_all
+ | rewrite code_fillCred by assumption
+ | rewrite Equal_stdc | rewrite CBCEncrypt_stdc | rewrite GCMEncrypt_stdc | rewrite GCMDecrypt_stdc | rewrite CBCDecrypt_stdc
+ | rewrite slice_from_nat by lensn
+ | rewrite slice_ok by lensn
+ | rewrite key_iv_48 by assumption | rewrite key_nonce_48 by assumption
+ | dec_if3 ].
+Ltac ev3 := first [ ev3n
+ | match goal with
+   | |- context [match ?r with Ok _ => _ | Err _ => _ | Aes.Panic => _ end] => not_if r; dres r
+   | |- context [of_opt ?r] => not_if r; destruct r eqn:?
+   | |- context [lift ?r] => not_if r; destruct r eqn:?
+   | |- context [Crypt.bind ?r _] => not_if r; dres r
+   | |- context [cred_res ?r] => not_if r; destruct r eqn:?
+   | |- context [of_opt ?r] => not_if r; destruct r eqn:?
+   | |- context [lift ?r] => not_if r; destruct r eqn:?
+   end ].
+Ltac feq9 := first [ reflexivity | lensn | progress f_equal; feq9 ].
+
+Theorem code_SaltBySecretCBCDecrypt : forall osalt fuel ct secret reuse, (4 <= fuel)%nat ->
+  g_SaltBySecretCBCDecrypt fuel (stdc E D seal open md5 osalt) ct secret reuse =
+  bytes_res9 (plain_of (salt_cbc_decrypt D md5 ct secret reuse)).
+Proof.
+  intros osalt fuel ct secret reuse Hf. unfold g_SaltBySecretCBCDecrypt, salt_cbc_decrypt.
+  pose proof (masked_land (length ct)) as Hm. pose proof (zlen_nonneg ct) as Hz.
+  repeat ev3. all: feq9.
+Qed.
+
+Theorem code_SaltBySecretGCMDecrypt : forall osalt fuel ct secret ad reuse, (4 <= fuel)%nat ->
+  g_SaltBySecretGCMDecrypt fuel (stdc E D seal open md5 osalt) ct secret ad reuse =
+  bytes_res9 (plain_of (salt_gcm_decrypt open md5 ct secret ad reuse)).
+Proof.
+  intros osalt fuel ct secret ad reuse Hf. unfold g_SaltBySecretGCMDecrypt, salt_gcm_decrypt.
+  pose proof (zlen_nonneg ct) as Hz.
+  repeat ev3. all: feq9.
 Qed.
 End S.
